@@ -35,7 +35,7 @@ func init() {
 		Run: run,
 		Floors: func(t string) map[string]int64 {
 			return map[string]int64{"api.struct": 100, "api.fields": 100, "kind.Point": 8, "kind.MultiPoint": 8, "kind.LineString": 8, "kind.MultiLineString": 8, "kind.Polygon": 8, "kind.*Bounds": 8,
-				"records.compared": 3000, "string.last_column": 50, "string.with_edge_blanks": 200, "ring.unclosed": 200, "ring.unclosed_by_a_hair": 100, "file.empty": 3, "column.string": 100, "column.int": 100, "column.float": 100, "string.at_field_width": 20, "schema.crossed_tags_and_names": 20, "decode.alternating_record_types": 30, "box.degenerate": 50, "schema.eleven_byte_names_sharing_ten": 20, "schema.names_longer_than_the_dbf_field": 20, "schema.long_name_cut_inside_a_two_byte_letter": 8, "schema.tag_names_no_column_but_the_field_name_does": 100, "file.more_than_1000_records": 1}
+				"records.compared": 3000, "string.last_column": 50, "string.with_edge_blanks": 200, "ring.unclosed": 200, "ring.unclosed_by_a_hair": 100, "file.empty": 3, "column.string": 100, "column.int": 100, "column.float": 100, "string.at_field_width": 20, "schema.crossed_tags_and_names": 20, "decode.alternating_record_types": 30, "box.degenerate": 50, "schema.eleven_byte_names_sharing_ten": 20, "schema.names_longer_than_the_dbf_field": 20, "schema.long_name_cut_inside_a_two_byte_letter": 8, "schema.tag_names_no_column_but_the_field_name_does": 100, "schema.names_the_file_stores_differently": 8, "file.more_than_1000_records": 1}
 		},
 	})
 }
@@ -282,6 +282,23 @@ func genColumns(r *gen.R) []column {
 		}
 		cols = append(cols, col)
 	}
+	if r.Chance(0.08) {
+		// attribute names that the file stores in a different form: letters whose lower-case form
+		// has another byte length (the struct API writes tags in lower case and the file then cuts
+		// them; the field API writes names as given), a blank where the file cuts the name, blanks
+		// at the ends. The same struct / the same requested name must find its column.
+		for i := range cols {
+			if i >= 4 {
+				break
+			}
+			u := string(rune('A' + i))
+			nm := []string{u + "İSTANBUL_NUFUS", u + "STRAẞE_NUMMER", strings.ToLower(u) + "opulation total", " " + strings.ToLower(u) + "x", strings.ToLower(u) + "x "}[r.Intn(5)]
+			cols[i].tag, cols[i].dbf, cols[i].decTag = nm, nm, nm
+			cols[i].encName, cols[i].decName = "F"+u+strconv.Itoa(i), "G"+u+strconv.Itoa(i)
+		}
+		oddNames = true
+		return cols
+	}
 	if r.Chance(0.1) {
 		// names longer than the 11 bytes a DBF field name holds (distinct within those 11 bytes):
 		// the file stores the shortened name, the same struct / the same requested name must find it
@@ -341,7 +358,7 @@ func genColumns(r *gen.R) []column {
 }
 
 // crossed / longNames report what the last genColumns call produced.
-var crossed, longNames, longerNames, cutInRune, tagMiss bool
+var crossed, longNames, longerNames, cutInRune, tagMiss, oddNames bool
 
 func goType(kind string) reflect.Type {
 	switch kind {
@@ -385,10 +402,13 @@ func run(c *core.Ctx, idx int) {
 	r := c.R
 	kind := kinds[r.Intn(len(kinds))]
 	structAPI := r.Bool()
-	crossed, longNames, longerNames, cutInRune, tagMiss = false, false, false, false, false
+	crossed, longNames, longerNames, cutInRune, tagMiss, oddNames = false, false, false, false, false, false
 	cols := genColumns(r)
 	if longNames {
 		c.Count("schema.eleven_byte_names_sharing_ten")
+	}
+	if oddNames {
+		c.Count("schema.names_the_file_stores_differently")
 	}
 	if tagMiss {
 		c.Count("schema.tag_names_no_column_but_the_field_name_does")
